@@ -78,10 +78,28 @@ CLAIMED = {
             "(>= k subset must recover, < k subset must not return anything, n distinct shares, mixed sets / corrupted digest / "
             "1-3 word substitutions / foreign customisation strings must be refused, accepted text must re-encode to itself), "
             "exhaustive subsets for n <= 6, all single-word substitutions of sampled 20- and 33-word shares, official vectors "
-            "from tests/tests/test_slip39.py.",
-            "Only corresponded, not proved: the bit-level share layout of the standard vs embit's integer packing "
-            "(share.encode.spec / share.decode.spec ops; exponent >= 16 = extendable flag is not supported by embit and such "
-            "shares are refused), two-level group recovery (official vectors + harness-built group sets), BIP39 conversion of the "
+            "from tests/tests/test_slip39.py. "
+            "Props/C16X.lean (deepening) proves in addition: Share.mnemonic s = the standard's encodeShare (bit-list layout "
+            "id(15) ext(1) e(4) GI(4) Gt-1(4) g-1(4) I(4) t-1(4), zero padding, value bits, ten-bit words, RS1024) of the fields of "
+            "s for every well-formed share with exponent < 16, and the data words agree for every exponent < 32; Share.parse = "
+            "the standard's decodeShare on EVERY word sequence (words < 1024) whose extendable-backup bit is 0, in both directions "
+            "of the field mapping (same refusals, same fields), hence decodeShare(encodeShare f) = f and parse(encodeShare f) = s; "
+            "embit keeps ONE five-bit exponent field (extendable flag + 4-bit exponent of the current text) and always uses the "
+            "customisation string 'shamir': at exponent 16 its text differs from the standard's in the checksum only and each "
+            "side refuses the other's text (theorem extendable_flag_differs, kernel-evaluated; an observation, safe refusal). "
+            "Two-level recovery: for every list of well-formed shares (exponent < 16) that is a valid set in the sense of the "
+            "standard (one id/exponent/GT/G/length, group indices < G, exactly GT groups, in each group one member threshold, "
+            "distinct member indices and exactly that many shares) ShareSet(shares).recover(passphrase) equals the standard's "
+            "combination (Spec/Slip39Groups.lean: RecoverSecret(T_i) per group in ascending group index, RecoverSecret(GT) on the "
+            "group shares, decryption), both failing together on a bad digest - every HMAC/PBKDF2; a set whose group indices "
+            "lie in fewer than GT (>= 2) values is refused; a set containing a group with fewer shares than its member "
+            "threshold is refused (also when GT = 1 and another group is complete); and two-level generate-then-recover: for "
+            "group shares = split_secret(ems, GT, G) and member shares = split_secret(group share, T_i, N_i) (any tapes), every "
+            "list of distinct shares with at least GT groups present and every present group at or above its member threshold "
+            "- exact sets and the supersets the standard calls invalid - is accepted and recover returns decrypt(ems). The check builds exact and non-exact "
+            "two-level sets from embit's own split_secret every run and compares embit, the model and the spec ops "
+            "slip39.validset.spec / slip39.combine.spec.",
+            "Only corresponded, not proved: shares with the extendable flag (not supported by embit, refused at the checksum), BIP39 conversion of the "
             "secret (C15), word <-> index lookup. The subset sweeps use a cheap stand-in for PBKDF2 patched into "
             "embit.slip39.hashlib (theorems are generic in it); real PBKDF2-HMAC-SHA256 runs on fewer cases and the vectors; the "
             "Lean reference HMAC/PBKDF2 is validated against hashlib by the same runs. 'Bad digest refused' is decision logic: a "
@@ -134,33 +152,53 @@ CLAIMED = {
             "differentially, ~3.8k cases quick / 55k thorough); the harness and its worker process; nonce_function arguments are not compared.",
             "§5 C08"),
     "C11": ("proof",
-            "Lean 4 theorems (codecs are exact inverses, decoders accept only valid encodings, GF(2) rank proof of 4-error "
-            "detection) + model/implementation correspondence + constants re-extracted from the loaded module",
-            "Props/C11.lean and Props/C11Detect.lean prove, for all inputs and every hash function: base58 decode(encode b)=b "
-            "for every byte string and encode(decode s)=s for every accepted string, the decoder accepts exactly the strings "
-            "over the alphabet and exactly the specified encodings; Base58Check decode accepts exactly the Base58Check texts; "
-            "convertbits 8->5->8 is the identity; the bech32 polymod step is XOR-linear, create/verify is an identity for every "
-            "hrp and data and the checksum is unique; bech32_decode(bech32_encode)=id; bech32.encode yields the BIP173/BIP350 "
-            "text for every valid (hrp, version 0-16, program 2-40 bytes) and decode returns it; whatever bech32.decode returns "
-            "is a valid BIP173/BIP350 address (length, case, hrp, variant for the version, padding, program rules); "
-            "Script.address on the five standard scripts equals the specified Base58Check/BIP173/BIP350 text and "
-            "address_to_scriptpubkey(address(s))=s for every network of a table with disjoint one-byte prefixes (embit's table, "
-            "re-extracted each run, is checked to be such); address_to_scriptpubkey yields a script only for a valid address of "
-            "a table network (so never for a wrong checksum/variant, mixed case, bad program or hash length, unknown prefix or "
-            "HRP). Error detection: a kernel-evaluated GF(2) rank computation (522 decide+kernel checks covering all 109 736 "
-            "placements of four error positions in an 89-symbol window, shift invariance for the rest) proves that two bech32 "
-            "strings accepted with the same variant and hrp that differ in at most four characters are equal up to case, hence "
-            "<= 4 substitutions in a valid segwit address are never accepted unless the HRP became another network's or the "
-            "string is valid for the OTHER variant; that such a cross-variant neighbour exists (4 substitutions, v0 -> v1) is "
-            "proved too, so its acceptance is BIP350 behaviour and is not flagged. The model follows embit after "
+            "Lean 4 theorems (codecs are exact inverses, decoders accept exactly the valid encodings, GF(2) rank proofs of 4-error "
+            "detection and of the unique cross-variant neighbour) + model/implementation correspondence + constants re-extracted "
+            "from the loaded module",
+            "Props/C11.lean, Props/C11Detect.lean and Props/C11X.lean prove, for all inputs and every hash function: base58 "
+            "decode(encode b)=b for every byte string and encode(decode s)=s for every accepted string, the decoder accepts exactly "
+            "the strings over the alphabet and exactly the specified encodings; Base58Check decode accepts exactly the Base58Check "
+            "texts; convertbits 8->5->8 is the identity; the bech32 polymod step is XOR-linear, create/verify is an identity for "
+            "every hrp and data and the checksum is unique; bech32_decode(bech32_encode)=id; bech32.encode yields the BIP173/BIP350 "
+            "text for every valid (hrp, version 0-16, program 2-40 bytes); bech32.decode(hrp, s) returns (ver, prog) IF AND ONLY IF "
+            "s is a valid BIP173/BIP350 segwit address for hrp with that version and program, in any permitted spelling (all lower "
+            "or all upper case; C11X.segwit_decode_iff); Script.address on the five standard scripts equals the specified "
+            "Base58Check/BIP173/BIP350 text and address_to_scriptpubkey(address(s))=s for every network of a table with disjoint "
+            "one-byte prefixes (embit's table, re-extracted each run, is checked to be such). Completeness "
+            "(C11X.to_script_iff): address_to_scriptpubkey yields script sc for string s IF AND ONLY IF s is exactly the "
+            "Base58Check address of the p2pkh/p2sh script sc on a table network, or s is up to whole-string case the "
+            "BIP173/BIP350 address of the p2wpkh/p2wsh/p2tr script sc on a table network, is not mixed case and its part before "
+            "the first '1' equals the table HRP literally; for a table whose HRPs all contain a lower-case letter (embit's does, "
+            "by decide) this is: s is EXACTLY the canonical address text (to_script_iff_exact), so every other spelling — the "
+            "all-upper-case one that bech32.decode accepts and BIP173 allows, and every mixed-case one — raises "
+            "(noncanonical_spelling_rejected, upper_case_spelling), as do valid v2-v16 addresses, v1 programs that are not 32 "
+            "bytes, wrong checksum/variant, bad lengths, unknown prefix or HRP. Error detection: a kernel-evaluated GF(2) rank "
+            "computation (522 decide+kernel checks covering all 109 736 placements of four error positions in an 89-symbol "
+            "window, shift invariance for the rest) proves that two bech32 strings accepted with the same variant and hrp that "
+            "differ in at most four characters are equal up to case. Cross-variant neighbours, characterised (C11X, a second "
+            "kernel-evaluated rank computation: 184 decide+kernel checks over all 30 856 placements of three further error "
+            "positions beside the version symbol in a 59-symbol data part, tables verified in Lean against the model): two "
+            "59-symbol words whose polymods differ by BECH32 xor BECH32M, whose first symbols differ by XOR 1 and that differ in "
+            "<= 4 positions differ by ONE fixed pattern (version symbol, offsets 45/36/16 from the end xor 22/31/25); hence, HRP "
+            "untouched and same length, a string within <= 4 substitutions of a p2wpkh address (not equal up to case) is NEVER "
+            "accepted (cross_variant_p2wpkh_none), and of a p2wsh/p2tr address is accepted only if it is (up to case) `neighbour a` "
+            "(cross_variant_characterised); conversely `neighbour a` is the canonical address of a 32-byte program of the other "
+            "type, exactly four substitutions away, and is accepted with that script (cross_variant_neighbour_accepted); for "
+            "embit's table: accepted <=> s' = neighbour a (cross_variant_iff). The model follows embit after "
             "fixes/c11-address-decoding-strict.diff and is tied to the repository by running embit and the native Lean driver "
             "on the same inputs each run (all five script types x all NETWORKS entries, exhaustive single substitutions, "
-            "sampled 2-4, hostile strings with valid checksums); the Lean spec encoders are the oracle for address texts.",
-            "Not proved (stated as GOAL lines): exact characterisation of all cross-variant neighbours; detection when HRP "
-            "characters change two symbols each beyond four symbols in total. Modelled deviations that C11 does not forbid: "
-            "all-upper-case segwit addresses and valid v2-v16 addresses are rejected by address_to_scriptpubkey; an unknown "
-            "Base58 version byte returns None. Trusted: Lean kernel + propext/Quot.sound/Classical.choice; harness generators; "
-            "CPython/hashlib (driver SHA-256 validated against hashlib each run); python str modelled as Unicode scalar lists.",
+            "sampled 2-4, hostile strings with valid checksums; per sampled segwit address the upper-case and a mixed-case "
+            "spelling and the constructed neighbour, which must be the proved pattern; in thorough tier every weight-<=4 "
+            "cross pattern is enumerated with embit's own polymod); the Lean spec encoders are the oracle for address texts.",
+            "Not proved (stated as GOAL lines): detection when HRP characters change two symbols each beyond four symbols in "
+            "total (and cross-variant neighbours whose substitutions touch the HRP); cross-variant neighbours at the level of "
+            "bech32.decode alone for data parts other than 59 symbols or version changes other than 0<->1 (address_to_scriptpubkey "
+            "cannot yield those). Corresponded only: convertbits for widths other than 8/5, bech32_polymod on raw values, "
+            "script_type on non-standard scripts, raise-versus-None of address_to_scriptpubkey. Modelled deviations that C11 does "
+            "not forbid (now theorems, not findings): all-upper-case segwit addresses and valid v2-v16 addresses are rejected by "
+            "address_to_scriptpubkey; an unknown Base58 version byte returns None. Trusted: Lean kernel + "
+            "propext/Quot.sound/Classical.choice; harness generators; CPython/hashlib (driver SHA-256 validated against hashlib "
+            "each run); python str modelled as Unicode scalar lists.",
             "§5 C11"),
     "C02": ("proof",
             "Lean 4 theorems (sign/skip policy = authorisation rule for all flag combinations; digest dispatch per script type) + independent Lean signature verification against the consensus digest",
